@@ -177,3 +177,28 @@ theorem fixed8FromString_iff (s : Bytes) (w : Int) :
   | some v => simp [eq_comm]
 
 end NeoModel.Codec
+
+namespace NeoModel.Codec
+
+/-- the strings on which print∘parse is the identity are exactly the strings the printer produces
+(and on those parse∘print is the identity too: `dec_parse_print`). -/
+theorem dec_print_parse_fixed (s : Bytes) (p : Nat) (v : Int) (h : decFromString s p = some v) :
+    decToString v p = s ↔ ∃ bi, s = decToString bi p := by
+  constructor
+  · intro hs; exact ⟨v, hs.symm⟩
+  · rintro ⟨bi, rfl⟩
+    rw [dec_parse_print bi p] at h
+    injection h with h
+    rw [h]
+
+theorem fixed8_print_parse_fixed (s : Bytes) (v : Int) (hr : -(2:Int)^63 ≤ v ∧ v < (2:Int)^63)
+    (h : fixed8FromString s = some v) :
+    fixed8String v = s ↔ ∃ w, (-(2:Int)^63 ≤ w ∧ w < (2:Int)^63) ∧ s = fixed8String w := by
+  constructor
+  · intro hs; exact ⟨v, hr, hs.symm⟩
+  · rintro ⟨w, hw, rfl⟩
+    rw [fixed8_parse_print w hw] at h
+    injection h with h
+    rw [h]
+
+end NeoModel.Codec
